@@ -6,7 +6,10 @@
 typedef unsigned long size_t;
 typedef long ptrdiff_t;
 typedef int wchar_t;
-typedef long max_align_t;
+typedef struct {
+  long long __max_align_ll;
+  long double __max_align_ld;
+} max_align_t;
 
 #define offsetof(type, member) ((size_t)&(((type *)0)->member))
 
